@@ -30,7 +30,10 @@ PROP_VALUES = ["Plain", "Work calendar", "50% done", "a=b:c", "[x] # y", "ZoÃ« â
 COLORS = ["#FF0000", "#00ff00aa", "#123456", "#ABCDEF12"]
 NASTY_VALUES = ["%", "%%", "100%", "%(displayname)s", "%s", "[section]", "[", "#hash", "a = b",
                 "key: value", "\"quoted\"", "it's", "back\\slash", "Ã¼", "æ—¥æœ¬èªž ã‚«ãƒ¬ãƒ³ãƒ€ãƒ¼", "a#b", "x=y=z",
-                "tab\tinside", "two  spaces", "=", ":", "!bang", "${var}", "~", "a,b", "<tag>&amp;"]
+                "tab\tinside", "two  spaces", "=", ":", "!bang", "${var}", "~", "a,b", "<tag>&amp;",
+                # several lines / paragraphs (descriptions are free text)
+                "two\nlines", "para one\n\npara two", "first\n second indented", "a\n[section]\nb = c",
+                "x\n# not a comment\n; neither", "l1\nl2\nl3\n\n\nl6"]
 VALUE_ALPHABET = list("abcXYZ019 %[]#=:\"'\\()$!?&<>/.,-_Ã¼Ã©â˜ƒ") + ["%%", "%(", ")s"]
 
 
@@ -146,6 +149,21 @@ def weighted(rng, table):
         if r <= acc:
             return k
     return table[-1][0]
+
+
+def run_witness_session(steps, frontend="wsgi", prefix="/", backend="tree", principal="/user/"):
+    """An explicit history (the witness of a listed finding): steps are [method name, args...]
+    of DavSession, e.g. ["mk", "cal1", "calendar"], ["propupdate", "cal1", [["displayname", "x"]]]."""
+    s = DavSession(frontend=frontend, prefix=prefix, backend=backend, principal=principal)
+    try:
+        for st in steps:
+            args = list(st[1:])
+            if st[0] == "propupdate":
+                args[1] = [tuple(x) for x in args[1]]
+            getattr(s, st[0])(*args)
+        return s.trace(0), s.concrete
+    finally:
+        s.close()
 
 
 def run_random_session(seed, prof, frontend="wsgi", prefix="/", backend="tree", audit_git=True, principal="/user/"):
